@@ -27,7 +27,8 @@ MANIFEST = dict(
          "D37 (SARIF uri not percent-encoded) are repaired by fixes/D23-*, D31-*, D37-*.patch; D75 (html line-total cards counted structure results) "
          "by fixes/D75-*.patch; D50 (overlapping scan roots counted twice) by fixes/D50-*.patch of the structure subsystem; D111 (Markdown Details table: names / reasons "
          "with pipes, backticks or line breaks broke cells, spans and rows, a split row could forge a Passed row) by fixes/D111-*.patch, Markdown is read back by a "
-         "python transcription of the GFM table and code-span rules. Roots model: relative roots "
+         "python transcription of the GFM table and code-span rules; D180 (report order and --top selection followed the directory enumeration order) "
+         "by fixes/D180-*.patch. Open findings: K20_backslash_twin (D181: a\\b.rs and a/b.rs reported under one path), K20_stats_markdown_raw_names (D182). Roots model: relative roots "
          "without parent-dir components, keys computed by the python side (split on the slash, dot and empty components dropped).",
     ref="5 (C20)")
 
@@ -570,6 +571,7 @@ def run_project(sgcli, model, builtin, gen, P, det_full, verbose_log=None, with_
         J = cross_format(acc, model, outs, case, "cli check")
         if J is None:
             return acc
+        twin_paths(acc, P, J, names, case)
         rc0 = rcs["json"]
         if any(v != rc0 for v in rcs.values()):
             acc.fails.append(("exit code depends on --format / -v: %s" % rcs, case))
@@ -658,6 +660,8 @@ def run_project(sgcli, model, builtin, gen, P, det_full, verbose_log=None, with_
                 sg = a.pop("suggestions", None)
                 if sg is not None:
                     acc.hist["cli:suggestions-attached"] += 1
+                    if b["status"] == "warning":
+                        acc.hist["cli:suggestions-attached-to-a-warning"] += 1
                 if a != b:
                     acc.fails.append(("--suggest changes a result beyond adding suggestions", case))
                 if sg is not None and b["status"] not in ("failed", "warning"):
@@ -742,6 +746,13 @@ def run_project(sgcli, model, builtin, gen, P, det_full, verbose_log=None, with_
         # ---- F. overlapping scan roots
         if with_roots:
             roots_phase(acc, model, P, J, run, case, tail)
+        # ---- H. the same tree created in two different orders (on tmpfs a directory enumerates in reverse creation order; on ext4 in
+        # the order of a per-filesystem hash): identical project, configuration and flags -> byte-identical reports, same --top selection
+        order_phase(acc, sgcli, P, case, sb)
+        # ---- G. a recorded violation is repaired and the next run tightens the baseline (--ratchet auto): stdout of a machine format is
+        # still exactly the report (well-formed, equal to the --output file of the same results); messages belong on stderr
+        if P.baseline:
+            ratchet_phase(acc, P, J, run, case, tail, bl, side, sb)
     if gen == "0" and "shared-ext" in P.tags:
         # unrepaired tree: every command is a fresh process with its own registration order, so any
         # cross-command disagreement of this project is a consequence of D23
@@ -749,6 +760,134 @@ def run_project(sgcli, model, builtin, gen, P, det_full, verbose_log=None, with_
             acc.known.append(("D23-hashmap-order", "consequence across commands: " + what, c))
         acc.fails, acc.mism = [], []
     return acc
+
+
+STATS_MD = "K20_stats_markdown_raw_names"      # finding: the stats Markdown tables print names raw (the check report was repaired by D111)
+TWIN = "K20_backslash_twin"      # display_path writes a backslash of a file NAME as a slash on every platform (finding, see known_findings/C20.json)
+
+
+def twin_paths(acc, P, J, names, case):
+    """distinct files of the project must be distinct results: no two file results of one run carry the same path"""
+    seen = collections.Counter(r["path"] for r in J["rows"] if not is_structure_row(r))
+    for p, n in sorted(seen.items()):
+        if n < 2:
+            continue
+        twins = [k for k in names if ("./" + lossy(k)).replace("\\", "/") == p]
+        if any("\ufffd" in lossy(k) for k in twins):
+            acc.hist["cli:same-path-through-lossy-decoding"] += 1      # two non-UTF-8 names that decode alike: inherent to a textual report
+            continue
+        sts = sorted(r["status"] for r in J["rows"] if r["path"] == p and not is_structure_row(r))
+        msg = "check lists %d file results with the same path %r (statuses %s) for the distinct files %s" % (n, p, sts, [lossy(k) for k in twins])
+        # classifier of the finding: exactly the files whose names differ only in backslash against slash, one result each
+        if len(twins) == n and any(b"\\" in k for k in twins):
+            acc.known.append((TWIN, msg, case))
+            acc.hist["cli:backslash-twin-results"] += 1
+        else:
+            acc.fails.append((msg, case))
+
+
+def order_phase(acc, sgcli, P, case, sb):
+    import shutil, tempfile
+    shm = "/dev/shm" if os.path.isdir("/dev/shm") and os.access("/dev/shm", os.W_OK) else None
+    base = tempfile.mkdtemp(prefix="sgv-report-order-", dir=shm or sb.base)
+    acc.hist["cli:creation-order-projects-on-%s" % ("tmpfs" if shm else "sandbox-fs")] += 1
+    try:
+        items = sorted(list(P.files.items()) + list(P.late.items()))
+        outs = {}
+        for name, seq in (("ascending", items), ("descending", items[::-1])):
+            root = os.path.join(base, name)
+            os.makedirs(root)
+            skipped = []
+            if name == "ascending":
+                with open(os.path.join(root, ".sloc-guard.toml"), "w") as f:
+                    f.write(P.config)
+            for rel, content in seq:
+                fp = os.path.join(os.fsencode(root), rel)
+                try:
+                    os.makedirs(os.path.dirname(fp), exist_ok=True)
+                    with open(fp, "wb" if isinstance(content, bytes) else "w") as f:
+                        f.write(content)
+                except OSError:
+                    skipped.append(rel)
+            if name == "descending":
+                with open(os.path.join(root, ".sloc-guard.toml"), "w") as f:
+                    f.write(P.config)
+            res = []
+            for args in (["check", "--format", "json", "--no-sloc-cache"], ["check", "--format", "markdown", "--no-sloc-cache"],
+                         ["stats", "files", "--top", "2", "--format", "json", "--no-sloc-cache"],
+                         ["stats", "breakdown", "--by", "dir", "--format", "json", "--no-sloc-cache"]):
+                acc.spawns += 1
+                rc, out, err = sb.run(sgcli, ["--color", "never"] + args, cwd=root, env={"RAYON_NUM_THREADS": "4"}, timeout=120)
+                res.append((args, rc, out))
+            outs[name] = res
+        for (args, rc1, o1), (_, rc2, o2) in zip(outs["ascending"], outs["descending"]):
+            if rc1 != rc2 or o1 != o2:
+                detail = ""
+                try:
+                    if args[0] == "check" and args[2] == "json":
+                        a, b = [e[0] for e in parse_check_json(o1)["entries"]], [e[0] for e in parse_check_json(o2)["entries"]]
+                        detail = ": results listed as %s... vs %s... (same set: %s)" % (a[:4], b[:4], sorted(a) == sorted(b))
+                    elif args[:2] == ["stats", "files"]:
+                        a, b = [f[0] for f in parse_stats_files("json", o1)], [f[0] for f in parse_stats_files("json", o2)]
+                        detail = ": --top 2 selects %s vs %s" % (a, b)
+                except Exception:
+                    pass
+                acc.fails.append(("%s on two byte-identical trees whose files were created in ascending / descending name order gives different "
+                                  "output (rc %s vs %s)%s" % (" ".join(args[:4]), rc1, rc2, detail), dict(case, creation_orders=["ascending", "descending"])))
+        acc.hist["cli:creation-order-comparisons"] += 4
+    finally:
+        shutil.rmtree(base, ignore_errors=True)
+
+
+def ratchet_phase(acc, P, J, run, case, tail, bl, side, sb):
+    import shutil
+    plainname = lambda t: "\\" not in t and not any(ord(c) < 32 or ord(c) == 127 for c in t)
+    gf = None
+    for rel in sorted(list(P.files) + list(P.late)):
+        try:
+            t = rel.decode("utf-8")
+        except UnicodeDecodeError:
+            continue
+        if plainname(t) and any(r["path"] == "./" + t and r["status"] == "grandfathered" and not is_structure_row(r) for r in J["rows"]):
+            gf = rel
+            break
+    if gf is None:
+        acc.hist["cli:ratchet-no-grandfathered-file"] += 1
+        return
+    target = os.path.join(os.fsencode(sb.proj), gf)
+    try:
+        with open(target, "w") as f:
+            f.write("x = 1\n")          # one line of code in every language: the recorded violation is gone
+    except OSError:
+        return
+    saved = bl + ".recorded"
+    shutil.copy2(bl, saved)
+    c2 = dict(case, repaired=gf.decode("utf-8"))
+    for fmt in ("json", "sarif"):
+        shutil.copy2(saved, bl)
+        of = os.path.join(side, "ratchet." + fmt)
+        rc1, out1, err1 = run([], ["check"], ["--format", fmt, "--ratchet", "auto"] + tail)          # tightens, report on stdout
+        rc2, out2, err2 = run([], ["check"], ["--format", fmt, "--ratchet", "auto", "--output", of] + tail)   # already tight, report in a file
+        acc.hist["cli:ratchet-auto-runs"] += 2
+        if "Baseline tightened" in err1 + out1:
+            acc.hist["cli:ratchet-auto-tightened-with-%s-on-stdout" % fmt] += 1
+        if rc1 not in (0, 1) or rc2 != rc1:
+            acc.fails.append(("check --ratchet auto --format %s exits %s when it tightens the baseline and %s on the tightened baseline: %s" % (fmt, rc1, rc2, (err1 or err2)[-200:]), c2))
+            continue
+        try:
+            PARSERS[fmt](out1)
+        except Bad as e:
+            acc.fails.append(("check --ratchet auto --format %s while tightening the baseline: stdout is not a well-formed %s report (%s); it begins %r" % (fmt, fmt, e, out1[:80]), c2))
+            continue
+        try:
+            filed = open(of).read()
+        except OSError as e:
+            acc.fails.append(("--output file missing: %s" % e, c2))
+            continue
+        if strip1(filed) != strip1(out1):
+            acc.fails.append(("check --ratchet auto --format %s: stdout of the run that tightened the baseline differs from the --output file of the same results" % fmt, c2))
+        if out2.strip():
+            acc.fails.append(("check --format %s --output FILE still prints to stdout: %r" % (fmt, out2[:80]), c2))
 
 
 def has_tie(J, sub):
@@ -776,6 +915,25 @@ def stats_phase(acc, sgcli, model, builtin, gen, P, J, rep_j, run, case, rawmap,
         for fmt in ("text", "md"):
             if parse_stats_files(fmt, fouts[fmt]) != frows:
                 acc.fails.append(("stats files %s differs from stats files json" % fmt, case))
+    elif any(c in p for p, *_ in frows for c in "|`\n\r"):
+        # read as a GFM renderer reads it (the reader used for the check report): rows of 6 cells, the name a code span
+        acc.hist["cli:stats-md-with-pipe-backtick-or-newline-in-a-name"] += 1
+        try:
+            got = []
+            lines = re.split(r"\r\n|\n|\r", fouts["md"])
+            k = next(i for i, l in enumerate(lines) if l.startswith("|------"))
+            for line in lines[k + 1:]:
+                if line == "":
+                    break
+                cells = md_split_row(line)
+                if cells is None or len(cells) != 6:
+                    raise Bad("line %r is not a row of 6 cells" % line[:80])
+                got.append((md_code_span(cells[0]), int(cells[2]), int(cells[3]), int(cells[4]), int(cells[5])))
+            want = [(md_shown_name(p), c, t, m, b) for p, c, t, m, b in frows]
+            if got != want:
+                raise Bad("rows %s, stats files json has %s" % ([g for g in got if g not in want][:2], [w for w in want if w not in got][:2]))
+        except (Bad, ValueError, StopIteration) as e:
+            acc.known.append((STATS_MD, "stats files --format md does not name the files of stats files --format json: %s" % e, case))
     # check vs stats: identical counts per file
     chk = collections.Counter((r["path"], r["stats"]["total"], r["stats"]["code"], r["stats"]["comment"], r["stats"]["blank"])
                               for r in J["rows"] if r.get("violation_category", {}).get("category") != "structure")
@@ -1026,7 +1184,7 @@ def roots_phase(acc, model, P, J, run, case, tail):
             acc.fails.append((msg, c2))
 
 
-KIND_PLAN = ["bigstructure", "none", "plain", "ties", "hostile", "structure", "baseline", "customlang", "mixed"]
+KIND_PLAN = ["bigstructure", "none", "plain", "ties", "hostile", "structure", "baseline", "customlang", "mixed", "warnband"]
 
 
 def cli_phase(ctx, sgcli, model, builtin, gen, n_projects, n_full, n_roots=5):
@@ -1166,7 +1324,9 @@ def run(ctx):
         "5 formats + -v, side-cars, -q/-vv/--suggest/--color always, stats files|summary|breakdown|report in every format, 3-15 repeated runs of 5 "
         "commands under RAYON_NUM_THREADS 1/4/16; with the SLOC cache on (files aged so that entries are stored; projects with EMPTY recognised source "
         "files and a file ignored by directive): check json / markdown / stats summary on the first and on later runs over one cache (threads 4/1/16) byte-identical "
-        "to the --no-sloc-cache reports; the html line-total cards against stats summary / --report-json; for 5 (thorough 80) projects "
+        "to the --no-sloc-cache reports; the html line-total cards against stats summary / --report-json; the same tree created in ascending and in descending name "
+        "order (on tmpfs when there is one): check json / markdown, stats files --top 2, stats breakdown --by dir byte-identical; for baseline projects a "
+        "recorded violation repaired, then check --ratchet auto --format json|sarif: stdout well-formed and equal to the --output file; for 5 (thorough 80) projects "
         "with a sub-directory: runs over overlapping scan roots (. d | d . | d d | d d/file | d/file d | file file | ./d d/) against the single covering root. evaluations = library cases answered + projects; non-trivial = distinct case with a non-passed "
         "result, a tie in a breakdown sort key, or an extension claimed by two custom languages; traces_validated = comparisons model-vs-tool that agreed")
     ctx.cov["input_distribution"] = dict(acc.hist)
@@ -1185,8 +1345,7 @@ def run(ctx):
         "python html.parser as the reference HTML tokenizer; serde_json for JSON well-formedness of strings",
         "std HashMap: iteration order is some permutation of the entries (modelled by the selection code pi); rayon collect preserves order",
         "Path::parent / display_path are modelled for clean relative paths as the scanner yields them"]
-    ctx.assumptions = ["readdir order of an unchanged directory is the same on every run (the scanner does not sort)",
-                       "custom language names are distinct (they are keys of one TOML table)"]
+    ctx.assumptions = ["custom language names are distinct (they are keys of one TOML table)"]
     xcheck(ctx, acc, 40 if quick else 300)
     # ---- verdicts
     seen_known = set()
